@@ -2277,3 +2277,72 @@ V('c06-search-twin-inline-escape', 'C06', 'R6.11', SEARCHPY,
 V('c06-string-build-strict-utf8', 'C06', 'R6.7', PRIM,
   "ascii_ = bytes(value, 'utf-8', 'replace')",
   "ascii_ = value.encode('utf-8')")
+V('c07-load-hook-skip-expunged', 'C07', 'R7.10', FETCHPY,
+  '''        loaded_msg = await self.message.load_content(self.requirement)
+        with self._get_loaded.apply(loaded_msg):
+            yield''',
+  '''        if self.message.expunged:
+            yield
+            return
+        loaded_msg = await self.message.load_content(self.requirement)
+        with self._get_loaded.apply(loaded_msg):
+            yield''')
+V('c08-dict-mailboxset-shared', 'C08', 'R8.5', DICTMBX,
+  '''class MailboxSet(MailboxSetInterface[MailboxData]):
+''', '''class MailboxSet(MailboxSetInterface[MailboxData]):
+
+    _shared: dict[str, Any] = {}
+
+    def _remember(self, name: str, mbx: Any) -> None:
+        self._shared[name] = mbx
+''')
+V('c09-mutable-default-roles', 'C09', 'R9.9', 'pymap/backend/dict/__init__.py',
+  '''    def __init__(self, name: str, login: Login, token_id: str | None,
+                 roles: Set[str]) -> None:''',
+  '''    def __init__(self, name: str, login: Login, token_id: str | None,
+                 roles: Set[str] = set()) -> None:''')
+V('c11-list-folders-bare-prefix', 'C11', 'R11.6', LAYOUT,
+  "elif not subdir or elem.startswith(subdir + '.'):",
+  "elif not subdir or elem.startswith(subdir):")
+V('c17-claim-yield-after-suppress', 'C17', 'R17.9', MAILDIRMBX,
+  '''            try:
+                os.rename(new_path, cur_path)
+            except FileNotFoundError:
+                pass
+            else:
+                yield name.rsplit(self.colon, 1)[0]''',
+  '''            try:
+                os.rename(new_path, cur_path)
+            except FileNotFoundError:
+                pass
+            yield name.rsplit(self.colon, 1)[0]''')
+V('c17-claim-twin-continue', 'C17', 'R17.9', MAILDIRMBX,
+  '''            try:
+                os.rename(new_path, cur_path)
+            except FileNotFoundError:
+                pass
+            else:
+                yield name.rsplit(self.colon, 1)[0]''',
+  '''            try:
+                os.rename(new_path, cur_path)
+            except FileNotFoundError:
+                continue
+            yield name.rsplit(self.colon, 1)[0]''', expect='silent')
+V('c10-update-apply-on-cached', 'C10', 'R10.9', DICTMBX,
+  'mode.apply(msg.permanent_flags', 'mode.apply(cached_msg.permanent_flags')
+V('c04-get-all-unordered', 'C04', 'R4.5', SEL,
+  '''            return [(seq, uid) for seq, uid in enumerate(self._sorted, 1)
+                    if uid in all_uids]''',
+  '''            return [(self._seqs_cache[uid], uid) for uid in all_uids]''')
+V('c03-message-text-reassembled', 'C03', 'R3.1', 'pymap/message.py',
+  '''            else:
+                return Writeable.empty()
+        return msg.body
+
+    @classmethod
+    def _get_size_with_lines''', '''            else:
+                return Writeable.empty()
+        return Writeable.concat((msg.body, ))
+
+    @classmethod
+    def _get_size_with_lines''')
